@@ -27,6 +27,7 @@ import (
 	"runtime"
 	"strconv"
 	"strings"
+	"sync"
 	"time"
 
 	"verifharness/internal/kit"
@@ -37,7 +38,7 @@ const (
 )
 
 type line struct {
-	K   string `json:"k"` // begin | ev | end
+	K   string `json:"k"` // begin | op (an operation starts) | ev (its result) | end
 	Idx int    `json:"idx"`
 	Ev  kit.Ev `json:"ev,omitempty"`
 }
@@ -80,7 +81,9 @@ func childMain() {
 	}
 	for i := start; i < len(scs) && i < start+count; i++ {
 		emit(line{K: "begin", Idx: i})
-		err := runScenario(w, scs[i], time.Duration(settleMs)*time.Millisecond, func(ev kit.Ev) { emit(line{K: "ev", Idx: i, Ev: ev}) })
+		err := runScenario(w, scs[i], time.Duration(settleMs)*time.Millisecond,
+			func(ev kit.Ev) { emit(line{K: "ev", Idx: i, Ev: ev}) },
+			func(ev kit.Ev) { emit(line{K: "op", Idx: i, Ev: ev}) })
 		if err != nil {
 			fmt.Fprintf(os.Stderr, "DRIVER-ERROR: scenario %d: %v\n", scs[i].Scn, err)
 			os.Exit(exitDriverError)
@@ -97,6 +100,7 @@ func childMain() {
 
 type childResult struct {
 	events map[int][]kit.Ev
+	during map[int]kit.Ev // the operation in progress (started, no result yet)
 	begun  map[int]bool
 	ended  map[int]bool
 	last   int // last begun index, -1 if none
@@ -121,7 +125,7 @@ func runChild(scnFile string, start, count, settleMs int, timeout time.Duration)
 	}
 	done := make(chan error, 1)
 	go func() { done <- cmd.Wait() }()
-	res := &childResult{events: map[int][]kit.Ev{}, begun: map[int]bool{}, ended: map[int]bool{}, last: -1}
+	res := &childResult{events: map[int][]kit.Ev{}, during: map[int]kit.Ev{}, begun: map[int]bool{}, ended: map[int]bool{}, last: -1}
 	select {
 	case err = <-done:
 	case <-time.After(timeout):
@@ -152,8 +156,11 @@ func runChild(scnFile string, start, count, settleMs int, timeout time.Duration)
 				case "begin":
 					res.begun[l.Idx] = true
 					res.last = l.Idx
+				case "op":
+					res.during[l.Idx] = l.Ev
 				case "ev":
 					res.events[l.Idx] = append(res.events[l.Idx], l.Ev)
+					delete(res.during, l.Idx)
 				case "end":
 					res.ended[l.Idx] = true
 				}
@@ -198,11 +205,17 @@ func parsePanic(stderr string) (msg, fn, where string) {
 			continue
 		}
 		if strings.HasPrefix(l, "github.com/gauss-project/aurorafs/pkg/") {
-			fn = frameName(l)
-			if i+1 < len(lines) {
-				where = frameWhere(lines[i+1])
+			if fn == "" {
+				if i+1 < len(lines) {
+					where = frameWhere(lines[i+1])
+				}
+				fn = frameName(l)
+			} else {
+				fn += " < " + frameName(l)
 			}
-			break
+			if strings.Count(fn, " < ") >= 2 {
+				break
+			}
 		}
 	}
 	return
@@ -229,20 +242,14 @@ func frameWhere(l string) string {
 	return l
 }
 
-func supervise(scs []kit.Scenario, out *kit.Out) error {
-	scnFile := os.Args[2]
-	settleMs := 250
-	if v := os.Getenv("VERIF_SETTLE_MS"); v != "" {
-		if n, err := strconv.Atoi(v); err == nil {
-			settleMs = n
-		}
-	}
+// superviseRange runs scenarios [lo, hi) in child processes, restarting after every crash.
+func superviseRange(scnFile string, lo, hi, settleMs int, record func(idx int, evs []kit.Ev)) error {
 	perScenario := 8 * time.Second
-	all := map[int][]kit.Ev{}
-	idx := 0
+	idx := lo
 	crashes := 0
-	for idx < len(scs) {
-		res, err := runChild(scnFile, idx, len(scs)-idx, settleMs, time.Duration(len(scs)-idx+5)*perScenario)
+	seen := map[string]bool{} // crash classes already attributed once (message type + panicking function)
+	for idx < hi {
+		res, err := runChild(scnFile, idx, hi-idx, settleMs, time.Duration(hi-idx+5)*perScenario)
 		if err != nil {
 			return err
 		}
@@ -251,11 +258,11 @@ func supervise(scs []kit.Scenario, out *kit.Out) error {
 		}
 		for i, evs := range res.events {
 			if res.ended[i] {
-				all[i] = evs
+				record(i, evs)
 			}
 		}
 		if res.code == 0 {
-			break
+			return nil
 		}
 		// the child died
 		crashes++
@@ -266,14 +273,33 @@ func supervise(scs []kit.Scenario, out *kit.Out) error {
 		if crashed < idx {
 			return fmt.Errorf("child died before the first scenario: %.600s", res.stderr)
 		}
+		msg, fn, where := parsePanic(res.stderr)
+		class := fn + "|" + where
+		crashEv := func(evs []kit.Ev, during kit.Ev, msg, fn, where string, attributed bool) []kit.Ev {
+			ev := kit.Ev{"op": "crash", "panicked": true, "returned": false, "pmsg": msg, "pfunc": fn,
+				"pwhere": where, "attributed": attributed, "err": "", "dop": "settle"}
+			for k, v := range during { // the operation that was in progress when the process died ("settle": none)
+				if v != "" && v != nil {
+					ev[k] = v
+				}
+			}
+			return append(evs, ev)
+		}
+		if fn != "" && seen[class] && !res.ended[crashed] {
+			// the same crash (same function, same line) was already reproduced alone once in this run: it died inside
+			// the scenario in progress again; the orchestrator's confirmation step re-runs it alone anyway
+			record(crashed, crashEv(res.events[crashed], res.during[crashed], msg, fn, where, true))
+			idx = crashed + 1
+			continue
+		}
 		// attribute: re-run the scenario in progress alone (longer settle); if it survives, the previous one
 		attributed := -1
 		var solo *childResult
 		for _, cand := range []int{crashed, crashed - 1} {
-			if cand < 0 {
+			if cand < lo {
 				continue
 			}
-			s, err := runChild(scnFile, cand, 1, 1500, 60*time.Second)
+			s, err := runChild(scnFile, cand, 1, 1500, 90*time.Second)
 			if err != nil {
 				return err
 			}
@@ -287,15 +313,60 @@ func supervise(scs []kit.Scenario, out *kit.Out) error {
 		}
 		if attributed < 0 {
 			// not reproducible alone: report it where it happened, marked
-			msg, fn, where := parsePanic(res.stderr)
-			all[crashed] = append(res.events[crashed], kit.Ev{"op": "crash", "panicked": true, "returned": false, "pmsg": msg, "pfunc": fn,
-				"pwhere": where, "attributed": false, "err": ""})
+			record(crashed, crashEv(res.events[crashed], res.during[crashed], msg, fn, where, false))
 		} else {
-			msg, fn, where := parsePanic(solo.stderr)
-			all[attributed] = append(solo.events[attributed], kit.Ev{"op": "crash", "panicked": true, "returned": false, "pmsg": msg, "pfunc": fn,
-				"pwhere": where, "attributed": true, "err": ""})
+			m2, f2, w2 := parsePanic(solo.stderr)
+			record(attributed, crashEv(solo.events[attributed], solo.during[attributed], m2, f2, w2, true))
+			seen[f2+"|"+w2] = true
 		}
 		idx = crashed + 1
+	}
+	return nil
+}
+
+func supervise(scs []kit.Scenario, out *kit.Out) error {
+	scnFile := os.Args[2]
+	settleMs := 120
+	if v := os.Getenv("VERIF_SETTLE_MS"); v != "" {
+		if n, err := strconv.Atoi(v); err == nil {
+			settleMs = n
+		}
+	}
+	shards := runtime.NumCPU() / 2
+	if v := os.Getenv("VERIF_SHARDS"); v != "" {
+		if n, err := strconv.Atoi(v); err == nil && n > 0 {
+			shards = n
+		}
+	}
+	if shards > len(scs)/20+1 {
+		shards = len(scs)/20 + 1
+	}
+	all := map[int][]kit.Ev{}
+	var mu sync.Mutex
+	record := func(i int, evs []kit.Ev) {
+		mu.Lock()
+		all[i] = evs
+		mu.Unlock()
+	}
+	errs := make(chan error, shards)
+	per := (len(scs) + shards - 1) / shards
+	started := 0
+	for lo := 0; lo < len(scs); lo += per {
+		hi := lo + per
+		if hi > len(scs) {
+			hi = len(scs)
+		}
+		started++
+		go func(lo, hi int) { errs <- superviseRange(scnFile, lo, hi, settleMs, record) }(lo, hi)
+	}
+	var first error
+	for i := 0; i < started; i++ {
+		if err := <-errs; err != nil && first == nil {
+			first = err
+		}
+	}
+	if first != nil {
+		return first
 	}
 	for i, sc := range scs {
 		evs, ok := all[i]
@@ -315,6 +386,5 @@ func main() {
 		childMain()
 		return
 	}
-	_ = runtime.NumCPU()
 	kit.Main(supervise)
 }
